@@ -37,7 +37,9 @@ Src(c) == IF c.kind = "struct" THEN StructSources ELSE EnumSources
 MCFieldSet(c) ==
   IF NVariants(c) = 0 THEN {}
   ELSE LET lv == Last(c.variants) IN
-    IF c.opts.dexpr THEN {DefField}
+    \* under a type-level expression no field attribute is allowed: the attributed fields on offer here only ever reach
+    \* the refused corpus (SealBad)
+    IF c.opts.dexpr THEN {DefField, [DefField EXCEPT !.dflt = "int"]} \cup (IF c.kind = "union" THEN {[DefField EXCEPT !.deref = TRUE]} ELSE {})
     ELSE IF c.kind = "union"
     THEN { [DefField EXCEPT !.ty = s[1], !.dflt = s[2], !.deref = m] : s \in EnumSources, m \in BOOLEAN }
     ELSE IF c.kind = "enum" /\ ~lv.dflt /\ MaxVariants > 1 /\ (NVariants(c) > 1 \/ TRUE)
